@@ -43,7 +43,7 @@ type FaultPlan struct {
 	// FiredKind/FiredLen describe the failed call.
 	FiredKind IOKind
 	Count     [4]int // calls per kind
-	OnCall    func(IOKind) // observer of every counted call
+	OnCall    func(IOKind, int) // observer of every counted call (kind, requested length)
 	FiredOp   int          // index of the op during which the fault fired
 }
 
@@ -89,7 +89,7 @@ func (m *MemFile) tick(kind IOKind, off int64, n int, data []byte) (rec *IORec, 
 		m.Plan.Count[kind]++
 		seq = m.Plan.Calls
 		if m.Plan.OnCall != nil {
-			m.Plan.OnCall(kind)
+			m.Plan.OnCall(kind, n)
 		}
 		if m.Plan.FailAt == seq {
 			fail = true
@@ -155,6 +155,10 @@ func (m *MemFile) WriteAt(p []byte, off int64) (int, error) {
 			j = len(p) / 2
 		case 3:
 			j = len(p) - 1
+		default:
+			if m.Plan.Torn >= 10 {
+				j = m.Plan.Torn - 10 // explicit number of bytes that reach the file
+			}
 		}
 		if j > len(p) {
 			j = len(p)
